@@ -5,9 +5,6 @@ open I18n I18n.Po I18n.Spec.PoSpelling I18n.Lemmas.PoKit I18n.Lemmas.PoLines
 
 /-! ### splitting into physical lines -/
 
-/-- a physical line: text without line feed, then the line feed -/
-def IsLine (l : Text) : Prop := ∃ c, l = c ++ ['\n'] ∧ '\n' ∉ c
-
 theorem physLines_line (c rest : Text) (hc : '\n' ∉ c) : physLines (c ++ '\n' :: rest) = (c ++ ['\n']) :: physLines rest := by
   induction c with
   | nil => simp [physLines]
@@ -47,6 +44,18 @@ theorem physLines_flatten_last (ls : List Text) (h : ∀ l ∈ ls, IsLine l) (la
     have := ih (fun x hx => h x (by simp [hx]))
     simp only [List.flatten_cons, List.append_assoc, List.cons_append, List.nil_append]
     rw [physLines_line c _ hc, this]
+
+/-- decidable form of `IsLine` -/
+def isLineB (l : Text) : Bool := l.getLast? == some '\n' && !(l.dropLast.contains '\n')
+
+theorem isLine_of_isLineB (l : Text) (h : isLineB l = true) : IsLine l := by
+  simp only [isLineB, Bool.and_eq_true, beq_iff_eq, Bool.not_eq_true', List.contains_eq_mem, decide_eq_false_iff_not] at h
+  have hne : l ≠ [] := by intro e; rw [e] at h; simp at h
+  refine ⟨l.dropLast, ?_, h.2⟩
+  have := List.dropLast_concat_getLast hne
+  rw [List.getLast?_eq_some_getLast hne] at h
+  simp at h
+  rw [← h.1]; exact this.symm
 
 /-! ### the pending-comment buffer -/
 
